@@ -129,6 +129,16 @@ func (w *World) CheckBalanceReads(ctx sdk.Context, s *ref.State) error {
 	return nil
 }
 
+// CanonAddr returns the canonical (lower-case) bech32 form of an address string; strings that do not
+// parse are returned unchanged.
+func CanonAddr(s string) string {
+	a, err := sdk.AccAddressFromBech32(s)
+	if err != nil {
+		return s
+	}
+	return a.String()
+}
+
 var escrowCache sync.Map // uint64 -> [3]string
 
 func EscrowAddrs(id uint64) (sell, pay, vest string) {
@@ -233,7 +243,9 @@ func (w *World) Snapshot(ctx sdk.Context) (*ref.State, error) {
 				return nil, errors.New("bid stored under a key different from its ids")
 			}
 			s.Bids[b.AuctionId] = append(s.Bids[b.AuctionId], &ref.Bid{
-				AID: b.AuctionId, ID: b.Id, Bidder: b.Bidder, Type: int(b.Type), Price: decRat(b.Price),
+				// an account is its address, not the way the address was typed: the reference model sees
+				// the canonical form (the raw record stays available in Raw)
+				AID: b.AuctionId, ID: b.Id, Bidder: CanonAddr(b.Bidder), Type: int(b.Type), Price: decRat(b.Price),
 				Denom: b.Coin.Denom, Amt: intBig(b.Coin.Amount), Matched: b.IsMatched, Raw: string(val),
 			})
 		case bytes.HasPrefix(key, ftypes.AllowedBidderKey.Bytes()):
